@@ -3,10 +3,12 @@ import Driver.Common
 import Driver.WalDrv
 import Driver.SstDrv
 import Driver.EngineDrv
+import Driver.CrashDrv
+import Driver.WalFaultDrv
 open Driver
 
 def components : List (String × Component) :=
-  [("wal", WalDrv.component), ("sst", SstDrv.component), ("engine", EngineDrv.component)]
+  [("wal", WalDrv.component), ("sst", SstDrv.component), ("engine", EngineDrv.component), ("crash", CrashDrv.component), ("walfault", WalFaultDrv.component)]
 
 def main (args : List String) : IO UInt32 := do
   match args with
